@@ -157,7 +157,9 @@ func genCrypto(h *harness, rng *vlib.Rand, n int) {
 			switch rng.Intn(8) {
 			case 0:
 			case 1:
-				ct, gen, pristine = ct[:minInt(len(ct), rng.Intn(30))], "truncated-short", false
+				// (an empty plaintext encrypts to exactly 28 bytes: cutting at 28 or 29 then leaves it untouched)
+				cut := minInt(len(ct), rng.Intn(30))
+				ct, gen, pristine = ct[:cut], "truncated-short", cut == len(ct)
 			case 2:
 				ct, gen, pristine = flipBit(rng, ct), "bitflip", false
 			case 3:
